@@ -689,6 +689,8 @@ type sdbEnv struct {
 	snapStep map[int]int
 	stepNo   int
 	del      bool
+	valset   int
+	copies   []copyRec
 	quiet    bool
 	tr       *mbt.Trace
 	fail     failer
@@ -753,7 +755,24 @@ func newSdbEnv(cfg map[string]interface{}, fail failer) *sdbEnv {
 		e.slots[n] = common.BytesToHash(ps[i])
 	}
 	e.codes = [][]byte{nil, {0x60, 0x00}, bytes.Repeat([]byte{0x5b}, 100), {0x00}}
-	e.vals = []common.Hash{{}, common.BigToHash(big.NewInt(1)), common.HexToHash("0xffffffffffffffffffffffffffffffffffffffffffffffffffffffffffffffff"), common.BigToHash(big.NewInt(0x8000))}
+	// storage value classes 0..3, chosen by cfg.valset: leading AND trailing zero bytes (the trie stores the value
+	// with its leading zeros trimmed, and only those), both ends non-zero, 1 next to 0x100 / 0x10000 (equal after a
+	// wrong trim), a lone top byte
+	e.valset = 0
+	if v, ok := cfg["valset"]; ok {
+		e.valset = mbt.Int(v)
+	}
+	hx := common.HexToHash
+	switch e.valset % 4 {
+	case 0:
+		e.vals = []common.Hash{{}, hx("0x01"), hx("0xffffffffffffffffffffffffffffffffffffffffffffffffffffffffffffffff"), hx("0x8000")}
+	case 1:
+		e.vals = []common.Hash{{}, hx("0x0100"), hx("0x0100000000000000000000000000000000000000000000000000000000000000"), hx("0xab00")}
+	case 2:
+		e.vals = []common.Hash{{}, hx("0x01"), hx("0x0100"), hx("0x010000")}
+	case 3:
+		e.vals = []common.Hash{{}, hx("0xab000000"), hx("0x8000000000000000000000000000000000000000000000000000000000000000"), hx("0xff00000000000000000000000000000000000000000000000000000000000001")}
+	}
 	e.nonces = []uint64{0, 1, 1 << 40, 7}
 	e.disk = ethdb.NewMemDatabase()
 	e.sdb = state.NewDatabase(e.disk)
@@ -959,7 +978,7 @@ func inList(xs interface{}, name string) bool {
 // rootChecks: the real root names the trie content (class table shared by all traces), equals the root of the
 // content rebuilt from nothing, and a Copy() taken at this boundary hashes to the same root.
 func (e *sdbEnv) rootChecks(root common.Hash, trieContent map[string]interface{}) {
-	classRoot(e.fail, fmt.Sprintf("statedb/del=%v", e.del), persistClass(trieContent), root)
+	classRoot(e.fail, fmt.Sprintf("statedb/del=%v/vs=%d", e.del, e.valset%4), persistClass(trieContent), root)
 	rep.Checks += 2
 	if r2 := e.rebuildRoot(trieContent); r2 != root {
 		e.fail("property", true, "history-independence:rebuild", "the same content rebuilt from an empty state has a different root", root.Hex(), r2.Hex())
@@ -969,15 +988,139 @@ func (e *sdbEnv) rootChecks(root common.Hash, trieContent map[string]interface{}
 	}
 }
 
-// replayRoot re-executes steps[0:n] on a fresh StateDB without any checking and finalises it.
-func replayRoot(tr mbt.Trace, n int) (root common.Hash) {
+// replayEnv re-executes steps[0:n] on a fresh StateDB without any checking.
+func replayEnv(tr mbt.Trace, n int) *sdbEnv {
 	quiet := func(string, bool, string, string, interface{}, interface{}) {}
 	e := newSdbEnv(tr.Cfg, quiet)
 	e.quiet = true
 	for i := 0; i < n; i++ {
 		e.apply(tr.Steps[i])
 	}
+	return e
+}
+
+// replayRoot re-executes steps[0:n] on a fresh StateDB and finalises it.
+func replayRoot(tr mbt.Trace, n int) (root common.Hash) {
+	e := replayEnv(tr, n)
 	return e.s.IntermediateRoot(e.del)
+}
+
+// resetNotDirty: per the model, account n is an object CreateAccount put over an existing account and nothing has
+// made the address dirty since (ghost `stale` after a finalisation, a lone "reset" journal entry before it)
+func resetNotDirty(post map[string]interface{}, n string) bool {
+	if inList(post["stale"], n) {
+		return true
+	}
+	reset, other := false, false
+	j, _ := post["journal"].([]interface{})
+	for _, ei := range j {
+		en := ei.(map[string]interface{})
+		if en["a"] == n {
+			if en["t"] == "reset" {
+				reset = true
+			} else {
+				other = true
+			}
+		}
+	}
+	return reset && !other
+}
+
+type copyRec struct {
+	s    *state.StateDB
+	obs  map[string]interface{}
+	what string
+}
+
+// batch writes every field of every account; variant selects the values
+func (e *sdbEnv) batch(s *state.StateDB, variant int) {
+	for i, n := range e.anames {
+		a := e.addrs[n]
+		s.SetNonce(a, e.nonces[(3+variant)%4])
+		s.SetBalance(a, e.bal(5+variant+i))
+		s.SetCode(a, e.codes[(3+variant)%4])
+		for j, sn := range e.snames {
+			s.SetState(a, e.slots[sn], e.vals[1+(variant+i+j)%3])
+		}
+	}
+}
+
+// copyChecks: CopyIndependent, both directions.  cp := Copy() must (1) answer like the original, (2) have a working journal
+// of its own, (3) when written to, leave the original's getters alone, (4) finalise to the root a StateDB gets that reached
+// the same state by the same history and was written to in the same way, (5) the same for a copy of the finalised copy,
+// (6) keep its content whatever the original does afterwards (checked at the end of the behaviour).  That the original's
+// journal / revisions / dirtiness are untouched shows in the original simply continuing the behaviour against the model.
+func (e *sdbEnv) copyChecks(post map[string]interface{}) {
+	if e.tr == nil {
+		return
+	}
+	rep.Count("copies")
+	obs0 := mbt.Canon(e.project(e.s)).(map[string]interface{})
+	cp := e.s.Copy()
+	rep.Checks += 6
+	obsC0 := mbt.Canon(e.project(cp)).(map[string]interface{})
+	if ks := mbt.DiffKeys(obs0, obsC0); len(ks) > 0 {
+		// the model knows one way this happens in both code bases: an object that replaced an existing account
+		// (CreateAccount) and was not dirtied since is not "dirty", so Copy() leaves it behind like Commit does
+		quirk := true
+		for _, n := range ks {
+			if !resetNotDirty(post, n) {
+				quirk = false
+			}
+		}
+		if quirk {
+			e.fail("property", true, "commit:reset-account-not-persisted", fmt.Sprintf("Copy() drops the un-dirtied object CreateAccount put over the existing account %v: the copy answers with the old account", ks), obs0, obsC0)
+		} else {
+			e.fail("property", true, "CopyIndependent:copy-differs", fmt.Sprintf("a fresh Copy() answers differently than the original on %v", ks), obs0, obsC0)
+			return
+		}
+	}
+	sid := cp.Snapshot()
+	e.batch(cp, 1)
+	cp.RevertToSnapshot(sid)
+	if ks := mbt.DiffKeys(obsC0, mbt.Canon(e.project(cp)).(map[string]interface{})); len(ks) > 0 {
+		e.fail("property", true, "CopyIndependent:copy-revert", fmt.Sprintf("snapshot + writes + revert inside the copy does not restore accounts %v", ks), obsC0, e.project(cp))
+		return
+	}
+	e.batch(cp, 0)
+	if ks := mbt.DiffKeys(obs0, mbt.Canon(e.project(e.s)).(map[string]interface{})); len(ks) > 0 {
+		e.fail("property", true, "CopyIndependent:original-changed", fmt.Sprintf("writing to the copy changed accounts %v of the original", ks), obs0, e.project(e.s))
+		return
+	}
+	ref := replayEnv(*e.tr, e.stepNo)
+	ref.batch(ref.s, 0)
+	rootCp, rootRef := cp.IntermediateRoot(e.del), ref.s.IntermediateRoot(e.del)
+	if rootCp != rootRef {
+		e.fail("property", true, "CopyIndependent:copy-root", "the written-to copy finalises to a different root than a StateDB with the same history and the same writes", rootRef.Hex(), rootCp.Hex())
+		return
+	}
+	obsCp := mbt.Canon(e.project(cp)).(map[string]interface{})
+	if ks := mbt.DiffKeys(mbt.Canon(e.project(ref.s)).(map[string]interface{}), obsCp); len(ks) > 0 {
+		e.fail("property", true, "CopyIndependent:copy-content", fmt.Sprintf("the written-to, finalised copy differs on %v from a StateDB with the same history and writes", ks), e.project(ref.s), obsCp)
+		return
+	}
+	// a copy of the finalised copy (Copy's second loop: objects that are dirty but no longer in the journal)
+	cp2 := cp.Copy()
+	e.batch(cp2, 2)
+	ref.batch(ref.s, 2)
+	if ks := mbt.DiffKeys(obsCp, mbt.Canon(e.project(cp)).(map[string]interface{})); len(ks) > 0 {
+		e.fail("property", true, "CopyIndependent:original-changed", fmt.Sprintf("writing to a copy of the copy changed accounts %v of the copy", ks), obsCp, e.project(cp))
+		return
+	}
+	r2, rr2 := cp2.IntermediateRoot(e.del), ref.s.IntermediateRoot(e.del)
+	if r2 != rr2 {
+		e.fail("property", true, "CopyIndependent:copy-root", "a written-to copy of a finalised copy finalises to a different root than a StateDB with the same history and writes", rr2.Hex(), r2.Hex())
+		return
+	}
+	// the copy's revisions are its own: a snapshot taken in the copy after all this still reverts exactly
+	sid = cp.Snapshot()
+	e.batch(cp, 1)
+	cp.RevertToSnapshot(sid)
+	if ks := mbt.DiffKeys(obsCp, mbt.Canon(e.project(cp)).(map[string]interface{})); len(ks) > 0 {
+		e.fail("property", true, "CopyIndependent:copy-revert", fmt.Sprintf("snapshot + writes + revert inside the finalised copy does not restore accounts %v", ks), obsCp, e.project(cp))
+		return
+	}
+	e.copies = append(e.copies, copyRec{cp, obsCp, fmt.Sprintf("copy taken after step %d", e.stepNo)})
 }
 
 func (e *sdbEnv) apply(st mbt.Step) (abort bool) {
@@ -1052,6 +1195,7 @@ func (e *sdbEnv) apply(st mbt.Step) (abort bool) {
 		}
 		e.rootChecks(root, trieC)
 		rep.Count("finalises")
+		e.copyChecks(st.Post) // Copy right after a finalisation: every touched account is dirty but not in the journal
 	case "Commit":
 		root, err := e.s.Commit(e.del)
 		if err != nil {
@@ -1121,6 +1265,11 @@ func (e *sdbEnv) apply(st mbt.Step) (abort bool) {
 		e.s, e.sdb = s, db
 		e.revIDs = map[int]int{}
 		rep.Count("reopens")
+	case "Copy":
+		if e.quiet {
+			return false
+		}
+		e.copyChecks(st.Post)
 	case "ProveAccount":
 		if e.quiet {
 			return false
@@ -1172,6 +1321,14 @@ func runStateDBTrace(ti int, tr mbt.Trace) {
 		}
 		if abort {
 			return
+		}
+	}
+	// whatever the original did after a copy was taken, the copy still holds what it held
+	cur = mbt.Step{A: "end"}
+	for _, c := range e.copies {
+		rep.Checks++
+		if ks := mbt.DiffKeys(c.obs, mbt.Canon(e.project(c.s)).(map[string]interface{})); len(ks) > 0 {
+			fail("property", true, "CopyIndependent:copy-changed-later", fmt.Sprintf("%s: accounts %v of the copy changed through later operations on the original", c.what, ks), c.obs, e.project(c.s))
 		}
 	}
 }
